@@ -7,19 +7,19 @@ instantiated with row indices as references. -/
 namespace Driver
 open Tongo Tongo.CellFmt Tongo.Message
 
-def tableStore (t : Table) : Store Nat := ⟨fun i => t[i]?.map fun r => ⟨r.bits, r.refs⟩⟩
+private def tableStore (t : Table) : Store Nat := ⟨fun i => t[i]?.map fun r => ⟨r.bits, r.refs⟩⟩
 
-def kidsOf (infos : Array (Outcome HashInfo)) (refs : List Nat) : Outcome (List HashInfo) :=
+private def kidsOf (infos : Array (Outcome HashInfo)) (refs : List Nat) : Outcome (List HashInfo) :=
   refs.mapM fun r => match infos[r]? with
     | some i => i
     | none => .err "bad ref index"
 
-def infoKind : Info → Nat
+private def infoKind : Info → Nat
   | .int .. => 0
   | .extIn .. => 1
   | .extOut .. => 2
 
-def msgHashLine (t : Table) : Outcome String := do
+private def msgHashLine (t : Table) : Outcome String := do
   let infos := Table.infos sha256 t
   let root ← match infos[0]? with
     | some i => i
@@ -37,7 +37,7 @@ def msgHashLine (t : Table) : Outcome String := do
     | _ => pure h0
   pure s!"{hexOut h0} {hexOut h1} {infoKind m.info} {hexOut bh}"
 
-def msgHashHandler : Handler := fun
+private def msgHashHandler : Handler := fun
   | [t] => match parseTable t with
     | some tb => match msgHashLine tb with
       | .ok s => "ok " ++ s
@@ -46,7 +46,7 @@ def msgHashHandler : Handler := fun
     | none => "bad-op"
   | _ => "bad-op"
 
-def txHashHandler : Handler := fun
+private def txHashHandler : Handler := fun
   | [t] => match parseTable t with
     | some tb => match (match (Table.infos sha256 tb)[0]? with
         | some i => i >>= (·.hashAt 3)
